@@ -53,6 +53,8 @@ type Baseline struct {
 var safetyKinds = map[string]bool{"index": true, "slice": true, "nil-deref": true, "nil-map": true, "nil-call": true, "type-assert": true,
 	"panic": true, "div0": true, "make-size": true, "relock": true, "unlock-unheld": true, "lock-balance": true}
 
+var ownershipKinds = map[string]bool{"guarded-by": true, "immutable": true, "atomic": true, "guarded-field-store": true, "ownership-complete": true, "monitor-stable": true}
+
 func loadJSON(path string, v any) error {
 	b, err := os.ReadFile(path)
 	if err != nil {
@@ -146,9 +148,10 @@ func checkMain(repo, verifRoot, prop, tier, replayFile string, verbose bool) int
 	unsupported := map[string]bool{}
 	assumptions := map[string]bool{}
 	funcsUnderContract := map[string]bool{}
-	totalPaths, totalInstances, trivial := 0, 0, 0
+	totalPaths, totalInstances, trivial, guardedOK := 0, 0, 0, 0
 	solverWins := map[string]int{}
 	solverTime := 0.0
+	ownUnits := map[string]bool{} // units of ownership targets: every ownership obligation in them is claimed, baseline or not
 
 	// one engine per module (registry is global: reset between modules)
 	byModule := map[string][]PropTarget{}
@@ -200,6 +203,9 @@ func checkMain(repo, verifRoot, prop, tier, replayFile string, verbose bool) int
 			first := len(e.obligations)
 			if t.Own {
 				e.ownershipComplete(pkgPath)
+				for _, u := range us {
+					ownUnits[u.Name] = true
+				}
 			}
 			for _, u := range us {
 				funcsUnderContract[u.Name] = true
@@ -262,6 +268,7 @@ func checkMain(repo, verifRoot, prop, tier, replayFile string, verbose bool) int
 		totalPaths += e.paths
 		totalInstances += len(e.obligations)
 		trivial += e.trivial
+		guardedOK += e.guardedOK
 		// trusted contracts
 		for _, cf := range e.contracts {
 			for n, ct := range cf.Funcs {
@@ -334,6 +341,9 @@ func checkMain(repo, verifRoot, prop, tier, replayFile string, verbose bool) int
 	for _, r := range results {
 		seenNow[r.Name] = true
 		isClaimed := inBase[r.Name] || base.Classes[r.Unit+"|"+r.Kind]
+		if ownershipKinds[r.Kind] && (ownUnits[r.Unit] || strings.HasPrefix(r.Unit, "type ")) {
+			isClaimed = true
+		}
 		if !haveBase {
 			isClaimed = false
 		}
@@ -407,6 +417,7 @@ func checkMain(repo, verifRoot, prop, tier, replayFile string, verbose bool) int
 		"paths":                    totalPaths,
 		"obligation_instances":     totalInstances,
 		"trivially_true_instances": trivial,
+		"ownership_accesses_checked_syntactically": guardedOK,
 		"solver_wins":              solverWins,
 		"solver_time_s":            round3(solverTime),
 		"baseline_file":            basePath,
